@@ -7,7 +7,7 @@ ROOT="$(cd "$(dirname "$0")/.." && pwd)"
 patch="$1"; shift
 if ! git -C /repo diff --quiet; then echo "/repo has uncommitted changes" >&2; exit 2; fi
 if ! git -C /repo apply "$patch"; then echo "patch does not apply" >&2; exit 2; fi
-trap 'git -C /repo checkout -- . ; git -C /repo clean -fdq' EXIT
+trap 'git -C /repo checkout -- . ; git -C /repo clean -fdq' EXIT INT TERM
 for id in "$@"; do
     out=$(VERIF_EVIDENCE_DIR=/dev/shm/cbmut/evidence VERIF_REPLAY_DIR=/dev/shm/cbmut/replays "$ROOT/check" "$id" "${TIER:-quick}" 2>&1); rc=$?
     sigs=$(echo "$out" | grep -E "^violation of" | sed -E 's/ — .*//' | sort -u | tr '\n' ';' | cut -c1-300)
